@@ -5,7 +5,10 @@ Etag, Connection, Transfer-Encoding; write(bytes|str|dict); flush (awaited or no
 redirect; raise HTTPError/Finish/ValueError) x request (GET/HEAD/POST+body, HTTP/1.0, 1.0+keep-alive,
 1.1, 1.1+close, optional If-None-Match matching the ETag the program will get).  The program is run by
 a generic RequestHandler under HTTPServer.handle_stream on the in-memory transport, with a second
-valid request pipelined behind it.  2/5 of the cases use a @stream_request_body handler that runs the
+valid request pipelined behind it.  REUSE: in 2/5 of the cases an earlier request with its own program
+(GET /pre, HTTP/1.1 keep-alive) is served first on the same connection / server / Application, so the
+request under test is the second use; both responses are judged independently of each other.
+2/5 of the cases use a @stream_request_body handler that runs the
 first k (non-terminal) ops in prepare(), i.e. before the request body is read (a flush there sends the
 header block during headers_received), and the rest in the method after the body; the model is the same
 (one program).  2/5 of the cases use a SLOW transport: a generated write-credit
@@ -18,7 +21,8 @@ prefix of it (queued output is discarded).
 Oracle: the bytes written by the server are read by the strict client-side reader vlib/httpref.py and
 compared with a pure-Python model of the program (vlib/respmodel.py: which ops are rejected, final
 status / handler-set headers, body = concatenation of the accepted writes, 304 substitution on an ETag
-match, error-page substitution (status + framing only), Content-Length guard => connection torn down).
+match, error-page substitution (status, framing, and body == the error page of a fresh request that only
+raises HTTPError(status)), Content-Length guard => connection torn down).
 Clauses: well-framed (exactly one response, then the pipelined response or EOF); status/reason;
 handler-set headers; body; Content-Length == length of the body a GET would carry (HEAD / 304);
 a close-delimited body is followed by EOF and is never announced with Connection: Keep-Alive;
@@ -50,7 +54,7 @@ Findings on the current tree (open, see known_findings.d/C02.json + findings_inb
   new raise Finish whose implicit finish() asserts (204/304/1xx + buffered chunk): request never answered.
 With the three proposed patches applied to a scratch copy the check is quiet with zero excluded cases.
 
-Sensitivity (quick tier, seed 1, each mutant applied alone to a scratch copy of tornado/; all 16 caught):
+Sensitivity (quick tier, seed 1, each mutant applied alone to a scratch copy of tornado/; all 17 caught):
   http1connection.write_headers: `_chunking_output` ignoring HEAD            -> C02.not_well_framed
   http1connection._format_chunk: over-length guard removed                   -> C02.status / C02.body_bytes_after_bodyless_status
   http1connection.finish: terminating zero-length chunk omitted              -> C02.not_well_framed
@@ -77,6 +81,12 @@ Sensitivity (quick tier, seed 1, each mutant applied alone to a scratch copy of 
       (found by independent mutation testing and MISSED while all output ops ran after the request body;
       with the prepare()/method split it is caught at seeds 1, 2, 3 after 413 / 563 / 544 cases, shrunk to
       HTTP/1.0 keep-alive GET + flush() in prepare())
+  web.clear: `_write_buffer` no longer reset (moved to __init__): send_error after unflushed writes emits the
+      abandoned chunks in front of the error page (Content-Length = sum, well-framed!)
+                                                                             -> C02.error_page_differs_from_fresh_error_page
+      (found by independent mutation testing and MISSED while error pages were only judged by status and
+      framing; the error page body is now compared with the page a fresh handler that only raises
+      HTTPError(status) gets -- "its error response" must be that page, not abandoned output)
   web.finish: automatic Content-Length taken from a running byte counter that clear() does not reset (error
       page after discarded buffered output announces a too large Content-Length)
                                                                              -> C02.not_well_framed / closed_without_response
@@ -232,6 +242,11 @@ grant_s = weighted(
     (3, st.tuples(st.just("fine"), st.sampled_from(ANCHORS))),
 )
 
+# REUSE: an earlier request (GET /pre, HTTP/1.1 keep-alive, own write/flush/header program) served on the same
+# connection / server / Application before the request under test; both responses are judged independently.
+pre0_s = st.lists(weighted((4, write_op), (3, flush_op), (1, st.tuples(st.just("set_header"), st.just("X-B"), st.just("pre"))),
+                           (1, finish_op)), max_size=4)
+
 case_s = st.fixed_dictionaries(
     {
         "method": st.sampled_from(["GET", "GET", "HEAD", "POST"]),
@@ -243,6 +258,7 @@ case_s = st.fixed_dictionaries(
         "segments": st.one_of(st.none(), st.lists(st.integers(1, 40), min_size=1, max_size=6)),
         "credit": weighted((3, st.none()), (2, st.lists(grant_s, min_size=1, max_size=6))),
         "pre": weighted((3, st.none()), (2, st.integers(0, 8))),
+        "pre0": weighted((3, st.none()), (2, pre0_s)),
     }
 )
 
@@ -341,20 +357,44 @@ def run_case(ctx, case):
     credit = case.get("credit")
     pre = case.get("pre")  # k: first k non-terminal ops run in prepare() of a stream_request_body handler
 
+    pre0 = case.get("pre0")  # program of an earlier request on the same connection (None: first use)
+
     def app():
-        return rm.make_app(prog, pre=pre)
+        return rm.make_app(prog, pre=pre, prog0=pre0)
+
+    if pre0 is not None:
+        req = rm.preamble_request() + req
 
     ref_wire = ref_closed = None
     if credit:
         # slow transport: reference run with a fast one first (anchors for the schedule, differential oracle)
         ref_wire, ref_closed, _l, _s = httpharness.roundtrip(app(), req + rm.SECOND_REQUEST,
                                                              segments=case["segments"])
-        grants = resolve_grants(credit, ref_wire, method)
+        off = 0
+        if pre0 is not None:
+            try:
+                off = rm.strip_preamble(ref_wire)[0].end
+            except httpref.RefError:
+                off = 0
+        grants = [g + off for g in resolve_grants(credit, ref_wire[off:], method)]
         wire, closed, logs, trace = rm.roundtrip_slow(app(), req + rm.SECOND_REQUEST,
                                                       segments=case["segments"], grants=grants)
     else:
         wire, closed, logs, _s = httpharness.roundtrip(app(), req + rm.SECOND_REQUEST, segments=case["segments"])
 
+    if pre0 is not None:
+        exp0 = rm.predict(pre0, "GET", None)
+        try:
+            r0, wire = rm.strip_preamble(wire)
+            if ref_wire is not None:
+                off = rm.strip_preamble(ref_wire)[0].end
+                ref_wire = ref_wire[off:]
+        except httpref.RefError as e:
+            ctx.fail("C02.earlier_response_on_connection_broken", {"case": case, "err": str(e), "wire": wire[:400]})
+            return ctx.note(case, {"reused_connection"}, True)
+        ctx.check(exp0.outcome == "normal" and r0.code == exp0.status and r0.body == exp0.body,
+                  "C02.earlier_response_on_connection_wrong",
+                  {"case": case, "status": r0.code, "got": r0.body[:100], "want": exp0.body[:100]})
     if alt is not None:
         try:
             observed_code = split_head(wire)[0]
@@ -393,6 +433,8 @@ def run_case(ctx, case):
         labels.add("split_prepare")
         if any(op[0] == "flush" for op in prog[:k]):
             labels.add("split_prepare_flush")  # header block sent before the request body is read
+    if pre0 is not None:
+        labels.add("reused_connection")
     if credit:
         labels.add("slow_transport")
         info["grants"] = grants[:40]
@@ -540,6 +582,20 @@ def run_case(ctx, case):
                                                        got_len=len(r1.body), want_len=len(exp.body)))
     if exp.error_page and method != "HEAD" and not exp.bodyless_status:
         ctx.check(len(r1.body) > 0, "C02.error_page_empty", info)
+        # "its error response": the page Tornado sends for this status on a request with no history (a fresh
+        # handler that does nothing but raise HTTPError(status)); output abandoned before the error must not
+        # show up in it
+        fresh, _c, _l, _s2 = httpharness.roundtrip(rm.make_app([("raise_http", exp.status)]),
+                                                  rm.build_request(method, version, conn, (),
+                                                                   case["post_body"] if method == "POST" else None))
+        try:
+            f1 = httpref.parse_responses(fresh, [method], True, max_responses=1)[0]
+        except (httpref.RefError, IndexError) as e:
+            ctx.fail("C02.reference_error_page_unreadable", dict(info, err=repr(e)))
+            return done()
+        ctx.check(r1.body == f1.body, "C02.error_page_differs_from_fresh_error_page",
+                  dict(info, got=r1.body[:200], want=f1.body[:200], got_len=len(r1.body), want_len=len(f1.body)))
+        labels.add("error_page_checked_against_fresh")
     # Content-Length == length of the body a GET would carry
     cls_ = r1.get_all("Content-Length")
     if cls_ and (method == "HEAD" or r1.code == 304):
@@ -558,7 +614,8 @@ def run_case(ctx, case):
         labels.add("flush_then_finish")
     # the model accepted every operation: Tornado must not have rejected one (an exception thrown into the
     # handler is logged by RequestHandler.log_exception on tornado.application)
-    if not exp.rejected and "flush_after_finish" not in exp.labels:
+    pre0_noisy = pre0 is not None and (exp0.rejected or "flush_after_finish" in exp0.labels)
+    if not exp.rejected and "flush_after_finish" not in exp.labels and not pre0_noisy:
         thrown = [r[2][:200] for r in logs.records if r[0] == "tornado.application" and r[1] >= 40]
         ctx.check(not thrown, "C02.operation_rejected_unexpectedly", dict(info, logged=thrown))
     if credit:
